@@ -216,4 +216,149 @@ example : conflicts (nopDemo none) = [(3, 4)] := by decide
 example : (undefinedOutputs { nopDemo (some []) with tensors :=
     [⟨112, some 0, false⟩, ⟨100, none, false⟩, ⟨576, some 0, false⟩, ⟨4, some 16, false⟩, ⟨4, some 32, false⟩] }).length = 1 := by decide
 
+
+/-! ## Interface tensors no operator stands behind (round 6)
+
+The runtime writes the subgraph inputs before the first operator and reads the subgraph outputs after the last one,
+whatever the operators do in between.  `born` is 0 for every tensor no operator produces (inputs, constants), `dies` is
+the end for every listed output — neither asks whether an operator touches the tensor.  A network input that is returned
+unchanged (seeded change C12-r6m2: dropped from the start-up pass, live range of one time step, placed over other live
+tensors) is therefore live for the whole inference and an accepted plan gives it bytes of its own. -/
+
+/-- a tensor no operator produces (a subgraph input, a constant) holds its value from time 0 -/
+theorem unproduced_born_zero (p : Plan) (t : Nat) (h : ∀ o ∈ p.ops, t ∉ o.outputs) : born p t = 0 := by
+  unfold born
+  cases hf : p.ops.zipIdx.find? (fun x => x.1.outputs.contains t) with
+  | none => rfl
+  | some x =>
+    have hm := List.mem_of_find?_eq_some hf
+    have hp := List.find?_some hf
+    obtain ⟨o, k⟩ := x
+    have : o ∈ p.ops := by
+      rw [List.mem_zipIdx_iff_getElem?] at hm
+      exact List.mem_of_getElem? hm
+    have := h o this
+    simp at hp
+    contradiction
+
+theorem output_dies_at_end (p : Plan) (t : Nat) (h : t ∈ p.outputs) : dies p t = p.ops.length + 1 := by
+  unfold dies
+  simp [h]
+
+theorem born_le_length (p : Plan) (t : Nat) : born p t ≤ p.ops.length := by
+  unfold born
+  cases hf : p.ops.zipIdx.find? (fun x => x.1.outputs.contains t) with
+  | none => simp
+  | some x =>
+    have hm := List.mem_of_find?_eq_some hf
+    obtain ⟨o, k⟩ := x
+    rw [List.mem_zipIdx_iff_getElem?] at hm
+    simp only at hm ⊢
+    have : k < p.ops.length := by
+      rcases Nat.lt_or_ge k p.ops.length with h | h
+      · exact h
+      · rw [List.getElem?_eq_none h] at hm; cases hm
+    omega
+
+theorem born_le_dies (p : Plan) (t : Nat) : born p t ≤ dies p t := by
+  unfold dies
+  split
+  · have := born_le_length p t; omega
+  · exact (foldl_max_ge (fun x => x.1.inputs.contains t || x.1.outputs.contains t) p.ops.zipIdx (born p t)).1
+
+theorem passthrough_live_throughout (p : Plan) (t : Nat) (hout : t ∈ p.outputs) (hprod : ∀ o ∈ p.ops, t ∉ o.outputs) :
+    ∀ τ, τ ≤ p.ops.length + 1 → liveAt p t τ := by
+  intro τ hτ
+  unfold liveAt
+  rw [unproduced_born_zero p t hprod, output_dies_at_end p t hout]
+  omega
+
+theorem passthrough_coexists_with_everything (p : Plan) (t b : Nat) (hout : t ∈ p.outputs) (hprod : ∀ o ∈ p.ops, t ∉ o.outputs) :
+    liveOverlap p t b = true ∧ liveOverlap p b t = true := by
+  unfold liveOverlap
+  rw [unproduced_born_zero p t hprod, output_dies_at_end p t hout]
+  have := born_le_length p b
+  simp only [Bool.and_eq_true, decide_eq_true_eq]
+  omega
+
+
+theorem bytesOverlap_symm (ta tb : ATensor) : bytesOverlap ta tb = bytesOverlap tb ta := by
+  unfold bytesOverlap
+  cases ta.offset <;> cases tb.offset <;> simp only
+  rw [Bool.eq_iff_iff]
+  simp only [Bool.and_eq_true, decide_eq_true_eq]
+  omega
+
+theorem no_handover_from_output (p : Plan) (t b : Nat) (tt tb : ATensor) (hout : t ∈ p.outputs) :
+    handoverAllowed p t b tt tb = false := by
+  unfold handoverAllowed
+  have := born_le_length p b
+  rw [output_dies_at_end p t hout]
+  simp only
+  rw [if_pos]
+  omega
+
+theorem no_handover_to_unproduced (p : Plan) (t b : Nat) (tt tb : ATensor) (hprod : ∀ o ∈ p.ops, t ∉ o.outputs) :
+    handoverAllowed p b t tb tt = false := by
+  unfold handoverAllowed
+  rw [unproduced_born_zero p t hprod]
+  simp
+
+theorem no_alias_to_unproduced (p : Plan) (t b : Nat) (tt tb : ATensor) (hprod : ∀ o ∈ p.ops, t ∉ o.outputs) :
+    aliasAllowed p b t tb tt = false := by
+  cases h : aliasAllowed p b t tb tt with
+  | false => rfl
+  | true =>
+    obtain ⟨_, _, o, ho, _, _, h5, _⟩ := aliasAllowed_spec p b t tb tt h
+    exact absurd h5 (hprod o ho)
+
+/-- **An accepted plan gives a returned input bytes of its own, except as the unwritten result of an Ethos-U identity.**
+    `t` is listed as subgraph output and no operator produces it (a subgraph input or a constant that is returned);
+    any other planned tensor `b` that shares a byte with it is the result of an Ethos-U operator that reads `t` and
+    whose command stream never writes `b` (same offset, same size: the same buffer). -/
+theorem returned_input_shares_bytes_only_as_alias (p : Plan) (h : conflicts p = []) (t b : Nat) (tt tb : ATensor)
+    (ht : (t, tt) ∈ planned p) (hb : (b, tb) ∈ planned p) (hne : t ≠ b)
+    (hout : t ∈ p.outputs) (hprod : ∀ o ∈ p.ops, t ∉ o.outputs) (hbo : bytesOverlap tt tb = true) :
+    aliasAllowed p t b tt tb = true := by
+  have hlo := passthrough_coexists_with_everything p t b hout hprod
+  have h1 := no_handover_from_output p t b tt tb hout
+  have h2 := no_handover_to_unproduced p t b tt tb hprod
+  have h3 := no_alias_to_unproduced p t b tt tb hprod
+  rcases Nat.lt_or_ge t b with hlt | hge
+  · have := conflicts_sound p h t tt b tb ht hb hlt hbo hlo.1
+    simpa [h1, h2, h3] using this
+  · have hlt : b < t := by omega
+    have := conflicts_sound p h b tb t tt hb ht hlt (by rw [bytesOverlap_symm]; exact hbo) hlo.2
+    simpa [h1, h2, h3] using this
+
+/-- **A pass-through tensor (subgraph input = subgraph output, touched by no operator) shares no byte with any other
+    planned tensor of an accepted plan.** -/
+theorem passthrough_shares_no_byte (p : Plan) (h : conflicts p = []) (t b : Nat) (tt tb : ATensor)
+    (ht : (t, tt) ∈ planned p) (hb : (b, tb) ∈ planned p) (hne : t ≠ b)
+    (hout : t ∈ p.outputs) (hprod : ∀ o ∈ p.ops, t ∉ o.outputs) (hread : ∀ o ∈ p.ops, t ∉ o.inputs) :
+    bytesOverlap tt tb = false := by
+  cases hbo : bytesOverlap tt tb with
+  | false => rfl
+  | true =>
+    have := returned_input_shares_bytes_only_as_alias p h t b tt tb ht hb hne hout hprod hbo
+    obtain ⟨_, _, o, ho, _, h4, _, _⟩ := aliasAllowed_spec p t b tt tb this
+    exact absurd h4 (hread o ho)
+
+-- non-vacuity: the demo network of the seeded change: inputs x (0) and p (1); x -> Ethos-U -> a (5) -> CPU -> s (6) -> Ethos-U -> c (7);
+-- outputs c and p.  `offP` = arena offset of p
+def passDemo (offP : Nat) : Plan :=
+  { tensors := [⟨1024, some 0, false⟩, ⟨1024, some offP, false⟩, ⟨100, none, false⟩, ⟨4096, some 0, false⟩, ⟨64, none, false⟩,
+                ⟨1024, some 1024, false⟩, ⟨1024, some 0, false⟩, ⟨1024, some 1024, false⟩],
+    ops := [⟨true, 32, [2, 4, 3, 0], [5], none⟩, ⟨false, 66, [5], [6], none⟩, ⟨true, 32, [2, 4, 3, 6], [7], none⟩],
+    inputs := [0, 1], outputs := [7, 1], scratch := some 3, fast := none, align := 16 }
+example : ∀ τ, τ ≤ 4 → liveAt (passDemo 0) 1 τ :=
+  passthrough_live_throughout (passDemo 0) 1 (by decide) (by decide)
+example : born (passDemo 0) 1 = 0 ∧ dies (passDemo 0) 1 = 4 := by decide
+/-- what the seeded change planned: p on top of the other input / of an intermediate map is a conflict … -/
+example : conflicts (passDemo 0) = [(0, 1), (1, 6)] ∧ conflicts (passDemo 1024) = [(1, 5), (1, 7)] := by decide
+/-- … with bytes of its own the plan is accepted, the extent accounts for it, and the theorem's hypotheses hold -/
+example : conflicts (passDemo 2048) = [] ∧ requiredExtent (passDemo 2048) = 3072 := by decide
+example : bytesOverlap ((passDemo 2048).tensors[1]!) ((passDemo 2048).tensors[6]!) = false :=
+  passthrough_shares_no_byte (passDemo 2048) (by decide) 1 6 _ _ (by decide) (by decide) (by decide) (by decide) (by decide) (by decide)
+
 end VelaVerif.Props.C12
